@@ -92,8 +92,12 @@ func main() {
 	wo, wi := bufio.NewWriterSize(fo, 1<<20), bufio.NewWriterSize(fi, 1<<20)
 	n := 0
 	emit := func(line string) {
+		// the operation is on disk before it runs: if it kills the process (fatal runtime error, stack overflow — nothing
+		// recover() can catch) the last line of ops.txt without a line in impl.txt names it
 		fmt.Fprintln(wo, line)
+		wo.Flush()
 		fmt.Fprintln(wi, execOp(line))
+		wi.Flush()
 		n++
 	}
 	// corpus of minimised past failures and regression inputs runs first
